@@ -54,6 +54,12 @@ def mutate(rng, text):
     return "".join(toks)
 
 
+def declared_size(text):
+    """the largest array size / list bound written in a text"""
+    ns = [int(x) for x in re.findall(r";\s*(\d+)\s*\]", text)] + [int(x) for x in re.findall(r",\s*(\d+)\s*>", text)]
+    return max(ns) if ns else 0
+
+
 def run(chk, replay=None):
     build_harness()
     corelib.tables()
@@ -136,8 +142,9 @@ def run(chk, replay=None):
             chk.case(ln + str(rel), sample={"entry": kind, "text": parse_sx(ln)[-1][:160], "outcome": x[:40]})
             chk.count("%s.%s.%s" % ("release" if rel else "debug", kind, x.split(" ")[0][:5]))
             if x not in ("ok", "err"):
-                cls = "entry-point-abort" if x.startswith("CRASH") and "memory allocation" in x else "entry-point-panic"
-                chk.violation({"class": cls, "what": "%s: %s || %s" % (kind, x[:160], parse_sx(ln)[-1][:400])},
+                ds = declared_size(parse_sx(ln)[-1])
+                cls = "entry-point-abort" if ds >= 10 ** 8 else "entry-point-panic"
+                chk.violation({"class": cls, "what": "declared-size=%d %s: %s || %s" % (ds, kind, x[:160], parse_sx(ln)[-1][:400])},
                               {"cmd": "total", "line": ln, "implementation": x, "release_build": rel,
                                "broken": "a text entry point panicked / aborted instead of returning Ok or Err"})
     # ---- declared sizes / bounds far beyond what can be laid out: must be Err, not an abort (run one per process, memory-limited)
@@ -145,13 +152,30 @@ def run(chk, replay=None):
            "fn f(a: [bool; 4398046511104]) { } fn main() { }", "type Big = [u8; 1099511627776]; fn main() { let x: Big = witness::A; }",
            "fn main() { let x: ([u8; 1099511627776], u8) = witness::A; }", "fn main() { let x: u8 = <[u8; 1099511627776]>::into(witness::A); }",
            "fn main() { let x: [[u8; 1048576]; 1048576] = witness::A; }"]
+    # sizes at which `2 * length` no longer fits the machine word (hex literal against a byte array type)
+    wrap = ["(entry program %s)" % quote("fn main() { let x: [u8; 9223372036854775809] = 0x0102; }"),
+            "(entry program %s)" % quote("fn main() { let x: [u8; 18446744073709551615] = 0x01; }"),
+            "(entry value (A (U 3) 9223372036854775809) %s)" % quote("0x0102"),
+            "(entry value (A (U 3) 18446744073709551615) %s)" % quote("0x"),
+            "(entry value (A (U 3) 9223372036854775808) %s)" % quote("0x"),
+            "(entry witjson %s)" % quote('{"A":{"value":"0x0102","type":"[u8; 9223372036854775809]"}}'),
+            "(entry witmod %s)" % quote("mod witness { const A: [u8; 9223372036854775809] = 0x0102; }")]
+    for ln in wrap:
+        for rel in ([False] if quick else [False, True]):
+            x = impl("total", [ln], shards=1, ulimit_v=4000000, release=rel)[0]
+            chk.case(ln + str(rel), sample={"entry": ln.split(" ")[1], "text": ln[:160], "outcome": x[:60]})
+            chk.count("wrap-size.%s" % x.split(" ")[0][:5])
+            if x != "err":
+                chk.violation({"class": "entry-point-panic", "what": "%s || %s" % (x[:100], ln[:300])},
+                              {"cmd": "total", "line": ln, "implementation": x, "release_build": rel, "expected": "err",
+                               "broken": "a hex literal against a byte-array type whose length does not fit twice into the machine word must be rejected (Err), not panic / be accepted"})
     for t in big:
         ln = "(entry program %s)" % quote(t)
         x = impl("total", [ln], shards=1, ulimit_v=4000000)[0]
         chk.case(ln, sample={"entry": "program", "text": t, "outcome": x[:60]})
         chk.count("huge-size.%s" % x.split(" ")[0][:5])
         if x not in ("ok", "err"):
-            chk.violation({"class": "entry-point-abort", "what": "%s || %s" % (x[:100], t)},
+            chk.violation({"class": "entry-point-abort", "what": "declared-size=%d %s || %s" % (declared_size(t), x[:100], t)},
                           {"cmd": "total", "line": ln, "implementation": x, "ulimit_v_kb": 4000000,
                            "broken": "a text entry point aborts the process (allocation proportional to a declared array size / list bound) instead of returning Err"})
     chk.extra["rule"] = ("token-level mutations (insert / delete / replace / duplicate / swap / truncate; literal edge forms _ 0x_ 0b_, huge digit runs, CR/LF/tab, non-ASCII, comments, keyword fragments) of generated programs, "
